@@ -327,6 +327,9 @@ def run_live(shard, acc):
                     viols.append(("live:hash_differs_for_equal_objects", f"{tag}: {a!r} vs {b!r}"))
 
     for round_ in range(shard.get("rounds", 1)):
+        # pids come round every few seconds on a busy machine: an entry cached for an earlier owner of the pid would be
+        # handed out as it is (that is C04's statement) - start every round with an empty cache
+        ps.process_iter.cache_clear()
         kid = ps.Popen(argv, env=env)
         other = subprocess.Popen(argv, env=env)
         try:
